@@ -192,11 +192,60 @@ def x2(ctx, R, rule="X2"):
             if isinstance(n, ast.Attribute) and n.attr == "pos" and isinstance(n.ctx, (ast.Store, ast.Del)):
                 writes.append((f, n))
     ctx.need(rule, "writes of the lexer position", len(writes), 3)
+    def conditional(f, cfg, node):
+        """the replay at `node` of f happens only after reassign_arguments() reported a change of the command's state"""
+        changers = [c for c in walk_no_nested(f.node) if isinstance(c, ast.Call) and call_name(c) == "reassign_arguments"]
+        ch_nodes = [x for c in changers for x in cfg.node_containing(c)]
+        for fct in cfg.facts():
+            e, pol = fact_atom(fct)
+            if not (isinstance(e, ast.Call) and isinstance(e.func, ast.Attribute) and R.an("curcommand") in norm(e.func.value)):
+                continue
+            tests = [p for p, _ in fct.pred]
+            if not ch_nodes or not all(cfg.dominates(ch_nodes, t, exc=False) for t in tests):
+                continue
+            if any(e is c for c in changers) and not _reassign_reports_progress(ctx):
+                continue
+            if not cfg.guarded(node, lambda x, fct=fct: x is fct):
+                continue
+            other = [s for t in tests for s, _ in t.succ if s is not fct]
+            if any(node in cfg.reach(o, exc=False) for o in other):
+                continue
+            return True
+        return False
+
     for f, n in writes:
         if f.cls is R.Lexer and f.name in ("scan", "__init__"):
             ctx.holds(rule, "%s: %s" % (f.qualname, norm(stmt_of(n))))
             continue
         st = stmt_of(n)
+        if f.cls is R.Lexer and isinstance(st, ast.Assign) and len(st.targets) == 1 and isinstance(st.value, ast.Attribute) \
+                and isinstance(st.value.value, ast.Name) and st.value.value.id == f.params[0] and len(f.params) == 1:
+            # a replay offered by the lexer itself: `pos = <start of the token being processed>`
+            a = st.value.attr
+            why = _token_start_attr(ctx, R, a)
+            if why is not None:
+                ctx.violation(rule, f, "replay-target:%s" % a, "%s sets the position to self.%s, which is not the start of the token being "
+                              "processed (%s)" % (f.qualname, a, why), node=st, witness="the lexer resumes somewhere else than at the replayed token")
+                continue
+            sites = []
+            for g in ctx.program.all_funcs():
+                if g.module.name in ("parser", "commands", "factory") and g.cls is not R.Lexer:
+                    for c in walk_no_nested(g.node):
+                        if isinstance(c, ast.Call) and isinstance(c.func, ast.Attribute) and c.func.attr == f.name and "lexer" in norm(c.func.value):
+                            sites.append((g, c))
+            okall = True
+            for g, c in sites:
+                cfg = ctx.cfg(g)
+                nodes = cfg.node_containing(c)
+                if not nodes or not conditional(g, cfg, nodes[0]):
+                    okall = False
+                    ctx.violation(rule, g, "replay-unconditional", "the lexer is rewound (%s) whether or not reassign_arguments() changed anything: "
+                                  "the same token is delivered again in the same state" % norm(c), node=c,
+                                  witness='`require ["imap4flags"]; if hasflag { keep; }` never returns')
+            if okall:
+                ctx.holds(rule, "%s: position := self.%s, the start of the token being processed; %d call site(s), each conditional on the command "
+                          "state after reassign_arguments()" % (f.qualname, a, len(sites)))
+            continue
         if not (isinstance(st, ast.AugAssign) and isinstance(st.op, ast.Sub)):
             ctx.violation(rule, f, "foreign-pos-write", "the lexer position is written outside the lexer: %s" % norm(st), node=st,
                           witness="position moved arbitrarily: tokens skipped or replayed without bound")
@@ -252,6 +301,34 @@ def x2(ctx, R, rule="X2"):
             ctx.violation(rule, f, "replay-unconditional", "the lexer is rewound (%s) whether or not reassign_arguments() changed anything: "
                           "the same token is delivered again in the same state" % norm(st), node=st,
                           witness='`require ["imap4flags"]; if hasflag { keep; }` never returns')
+
+
+def _token_start_attr(ctx, R, a):
+    """None when, in Lexer.scan, every yield is preceded in its iteration by `self.a = m.start()` of the match whose text is yielded
+    (nothing else writes self.a in between); else the reason."""
+    scan = R.scan
+    cfg = ctx.cfg(scan)
+    sn = scan.params[0]
+    ys = [n for n in cfg.stmt_nodes() if isinstance(n.ast, ast.Expr) and isinstance(n.ast.value, ast.Yield)]
+    if not ys:
+        return "scan does not yield"
+    writes = [n for n in cfg.stmt_nodes() if isinstance(n.ast, (ast.Assign, ast.AugAssign)) and any(
+        isinstance(t, ast.Attribute) and t.attr == a and isinstance(t.value, ast.Name) and t.value.id == sn
+        for t in (n.ast.targets if isinstance(n.ast, ast.Assign) else [n.ast.target]))]
+    for y in ys:
+        mv = {x.func.value.id for x in ast.walk(y.ast) if isinstance(x, ast.Call) and isinstance(x.func, ast.Attribute) and x.func.attr == "group"
+              and isinstance(x.func.value, ast.Name)}
+        good = [w for w in writes if isinstance(w.ast, ast.Assign) and isinstance(w.ast.value, ast.Call) and isinstance(w.ast.value.func, ast.Attribute)
+                and w.ast.value.func.attr == "start" and not w.ast.value.args and isinstance(w.ast.value.func.value, ast.Name)
+                and w.ast.value.func.value.id in mv]
+        # ... or the position itself, copied while it still is the start of the match (match taken at pos, pos not yet advanced)
+        if not good:
+            return "no assignment self.%s = <match>.start() for the yielded match" % a
+        others = [w for w in writes if w not in good]
+        loops = [n for n in walk_no_nested(scan.node) if isinstance(n, ast.While)]
+        if not cfg.guarded(y, lambda f_: False, kill_pred=lambda m_: m_ in others or (loops and m_.ast is loops[0]), establish=lambda m_: m_ in good):
+            return "a yield is reachable without self.%s having been set to the start of the yielded match in that iteration" % a
+    return None
 
 
 def _reassign_reports_progress(ctx):
@@ -1125,6 +1202,42 @@ def x13(ctx, R):
 
 
 
+def _scan_text_name(tr):
+    for x in ast.walk(tr):
+        if isinstance(x, ast.For) and isinstance(x.iter, ast.Call) and call_name(x.iter) == "scan" and x.iter.args and isinstance(x.iter.args[0], ast.Name):
+            return x.iter.args[0].id
+    return None
+
+
+_TOTAL_BYTES = {"find", "rfind", "count", "strip", "rstrip", "lstrip", "startswith", "endswith", "splitlines", "lower", "upper", "replace"}
+
+
+def _total_bytes_call(c, text):
+    """c is a method call that cannot raise: a searching / trimming method of the script text (bytes) or of a slice / trimmed part of
+    it, with constant or integer arguments, or .decode(<codec>, 'replace' | 'ignore') of such a value."""
+    if text is None or not isinstance(c.func, ast.Attribute) or c.keywords:
+        return False
+
+    def rooted(e):
+        if isinstance(e, ast.Name):
+            return e.id == text
+        if isinstance(e, ast.Subscript) and isinstance(e.slice, ast.Slice):
+            return rooted(e.value)
+        if isinstance(e, ast.Call) and isinstance(e.func, ast.Attribute) and e.func.attr in ("strip", "rstrip", "lstrip", "lower", "upper", "replace"):
+            return rooted(e.func.value) and _total_bytes_call(e, text)
+        return False
+
+    def plain(a):
+        return not any(isinstance(x, (ast.Call, ast.Await, ast.Yield, ast.Starred)) for x in ast.walk(a)) and not (
+            isinstance(a, ast.Constant) and not isinstance(a.value, (bytes, int)))
+    if not rooted(c.func.value):
+        return False
+    if c.func.attr == "decode":
+        return len(c.args) == 2 and isinstance(c.args[0], ast.Constant) and c.args[0].value in ("utf-8", "utf8", "latin-1", "ascii") \
+            and isinstance(c.args[1], ast.Constant) and c.args[1].value in ("replace", "ignore", "backslashreplace")
+    return c.func.attr in _TOTAL_BYTES and all(plain(a) for a in c.args)
+
+
 # ------------------------------------------------------------------------------- X11
 def x11(ctx, R):
     ctx.rule("X11", "verdict shape: handler sets error ('line %d: ...') and error_pos (line, column, length) and returns False; else True")
@@ -1146,8 +1259,8 @@ def x11(ctx, R):
             e0, e1, e2 = [local_value(x) for x in poss[0].value.elts]
             from .c18 import position_source
             raw = poss[0].value.elts
-            okp = (("curlineno" in norm(e0)) or position_source(ctx, R, h, raw[0]) == "line") and (
-                ("curcolno" in norm(e1)) or position_source(ctx, R, h, raw[1]) == "column") and isinstance(e2, ast.Call) and call_name(e2) == "len"
+            # the VALUES of the three components are rule Z3 of C18; here: a triple whose length component is a len()
+            okp = isinstance(e2, ast.Call) and call_name(e2) == "len"
         from sa.template import template, Lit, Hole
 
         def line_prefixed(v):
@@ -1168,7 +1281,7 @@ def x11(ctx, R):
                 if cn == "format" and isinstance(c.func, ast.Attribute) and isinstance(c.func.value, ast.Constant) and template(c) is not None:
                     continue  # message building: fields match the arguments (else X9 reports it)
                 from .c18 import position_helpers
-                if cn not in ("len", "str") and cn not in position_helpers(R):
+                if cn not in ("len", "str") and cn not in position_helpers(R) and not _total_bytes_call(c, _scan_text_name(tr)):
                     ctx.violation("X11", f, "handler-call:%s" % cn, "the handler calls %s, which may raise outside the funnel" % norm(c)[:50], node=c)
     last = f.node.body[-1]
     if isinstance(last, ast.Return) and const_value(ctx.program, f, last.value) is True:
